@@ -9,6 +9,7 @@ append / delete operations with the same index sets.
 from __future__ import annotations
 
 import z3
+from fractions import Fraction
 
 from contracts.trial_common import (ContractCriteria, OpaqueOp, adopt_filtered, checker, install, run_trials, snapshot)
 from pyvc.models.arrays import LabelSet, SArr, generic_index, install_numpy, member, zint
@@ -127,6 +128,34 @@ def build(S, tier, parts=None):
                             src = L1.term[1]
                             S.prove(f"{label}#ensures.additions_are_appended_before_the_deletion@{i}", src.term[0] == "concat" and arrays_equal(I, src.term[1], L0), kind="ensures")
                 S.guarded(label, post)
+
+    # the configured label is part of the bookkeeping a restart must bring back (every integer: 0 and negatives included; None)
+    for dl in ("none", "configured"):
+        def run_rt(I, dl=dl):
+            for m in I.loader.all_module_names():
+                I.import_module(m)
+            op = I.call(I.get_class("quansino.operations.displacement.Ball"), [Fraction(1, 10)], {})
+            mv = I.call(I.get_class(DM), [Tensor((3,), [0, 1, -1], "int"), op], {})
+            want = None
+            if dl == "configured":
+                want = I.path.fresh("default_label", "int")
+                mv.attrs["default_label"] = want
+            mv2 = I.call(I.getattr(I.get_class(DM), "from_dict"), [I.call(I.getattr(mv, "to_dict"), [], {})], {})
+            return dict(want=want, got=I.getattr(mv2, "default_label"))
+        label = f"{DM}[to_dict -> from_dict, default_label {dl}]"
+        for i, p in enumerate(S.explore(run_rt, label)):
+            S.adopt(p, prefix=label + ":")
+            if p.status == "unsupported":
+                continue
+            if p.status != "return":
+                S.prove(f"{label}#noraise@{i}", False, kind="noraise", why=f"raises {p.exc!r}")
+                continue
+            want, got = p.value["want"], p.value["got"]
+            if want is None:
+                S.prove(f"{label}#ensures.configured_label_survives_the_round_trip@{i}", got is None, kind="ensures", why=repr(got))
+            else:
+                S.prove(f"{label}#ensures.configured_label_survives_the_round_trip@{i}", (to_z3(got, "int") == want.t) if got is not None else False, hyps=p.pc if got is not None else (), kind="ensures",
+                        why=f"rebuilt move has default_label {got!r}")
 
     if parts == ("labels",):
         return meta            # only the label-array contract of DisplacementMove.on_atoms_changed (used by C11)
